@@ -9,7 +9,7 @@ RECURSIVE OutBeats(_, _)
 OutBeats(out, j) == IF j <= 1 THEN 0 ELSE OutBeats(out, j-1) + (out[j].m - out[j-1].m) * out[j-1].met
 
 Clauses(e) ==
-    IF e.exc # "" THEN [ wf_input |-> WellFormedTl(e.tl, e.G), no_exc |-> FALSE ]
+    IF e.exc # "" THEN [ wf_input |-> WellFormedTlDup(e.tl, e.G), no_exc |-> FALSE ]
     ELSE
     LET own == Len(e.ot) = Len(e.out) /\ e.via # "fn"
         mono == \A j \in 1..Len(e.out)-1 : e.out[j].m <= e.out[j+1].m
@@ -17,7 +17,7 @@ Clauses(e) ==
         tol == IF own THEN 2 ELSE 2 + (IF mono THEN OutBeats(e.out, Len(e.out)) ELSE 0)
         c   == ReseatClauses(e.tl, e.G, e.out, ot, tol)
     IN  [ k \in DOMAIN c \cup {"wf_input", "no_exc", "own_times"} |->
-            IF k = "wf_input" THEN WellFormedTl(e.tl, e.G)
+            IF k = "wf_input" THEN WellFormedTlDup(e.tl, e.G)
             ELSE IF k = "no_exc" THEN TRUE
             ELSE IF k = "own_times" THEN
                  \* the times the code reports agree with integrating its own measures
